@@ -166,6 +166,9 @@ enum Tok {
     UntrustedTsa,
     Sha1Imprint,
     SigningTimeAttrDiffers,
+    /// one bit flipped at a seeded-random position of a right token; region 0 = CMS signature value,
+    /// 1 = TSTInfo, 2 = signed messageDigest attribute
+    RandFlip { region: u8, r: u32, cli: bool },
 }
 
 impl Tok {
@@ -226,6 +229,11 @@ impl Tok {
             UntrustedTsa => "untrusted-tsa".into(),
             Sha1Imprint => "right-sha1".into(),
             SigningTimeAttrDiffers => "right-signingtime-attr-differs".into(),
+            RandFlip { region, cli, .. } => format!(
+                "random-bit-flip:{}{}",
+                ["cms-signature", "tstinfo", "signed-message-digest-attr"][*region as usize % 3],
+                if *cli { "(openssl-ts)" } else { "" }
+            ),
         }
     }
     /// cause class for signatures (producer suffix removed)
@@ -234,7 +242,7 @@ impl Tok {
     }
     fn is_cli(&self) -> bool {
         use Tok::*;
-        matches!(self, RightCli(_) | RightCliRsa | OtherMessageCli | SigFlipCli | TstInfoFlipCli | NoCertsCli)
+        matches!(self, RightCli(_) | RightCliRsa | OtherMessageCli | SigFlipCli | TstInfoFlipCli | NoCertsCli | RandFlip { cli: true, .. })
     }
 }
 
@@ -279,6 +287,24 @@ fn change_gentime_digit(buf: &mut [u8]) -> Result<(), String> {
     Ok(())
 }
 
+/// Flips one bit inside the named region of a token / response (the region is found structurally).
+fn rand_flip(buf: &mut [u8], region: u8, r: u32) -> Result<(), String> {
+    let (start, len) = match region % 3 {
+        0 => (buf.len().saturating_sub(48), 48.min(buf.len())),
+        1 => pki_tsa::locate_tst_info(buf).ok_or("TSTInfo not found")?,
+        _ => {
+            let oid = pki::der::oid(pki_tsa::OID_ATTR_MESSAGE_DIGEST);
+            let pos = buf.windows(oid.len()).position(|w| w == oid.as_slice()).ok_or("messageDigest attribute not found")?;
+            (pos + oid.len(), 36)
+        }
+    };
+    if len == 0 || start + len > buf.len() {
+        return Err("flip region out of range".into());
+    }
+    buf[start + (r as usize & 0xffff) % len] ^= 1 << ((r >> 16) % 8);
+    Ok(())
+}
+
 /// Produces the token of class `tok` for `message` (the right message) / `other_version_message`.
 fn make(p: &Pki, tok: Tok, message: &[u8], other_version_message: &[u8]) -> Result<Made, String> {
     use Tok::*;
@@ -293,7 +319,7 @@ fn make(p: &Pki, tok: Tok, message: &[u8], other_version_message: &[u8]) -> Resu
             RightCli(m) => (&p.tsa_ec, m, message, true),
             RightCliRsa => (&p.tsa_rsa, Md::Sha256, message, true),
             OtherMessageCli => (&p.tsa_ec, Md::Sha256, wrong.as_slice(), true),
-            SigFlipCli | TstInfoFlipCli => (&p.tsa_ec, Md::Sha256, message, true),
+            SigFlipCli | TstInfoFlipCli | RandFlip { .. } => (&p.tsa_ec, Md::Sha256, message, true),
             NoCertsCli => (&p.tsa_ec, Md::Sha256, message, false),
             _ => unreachable!(),
         };
@@ -313,6 +339,10 @@ fn make(p: &Pki, tok: Tok, message: &[u8], other_version_message: &[u8]) -> Resu
                 t.cms_ok = false;
             }
             NoCertsCli => t.cms_ok = false,
+            RandFlip { region, r, .. } => {
+                rand_flip(&mut resp, region, r)?;
+                t.cms_ok = false;
+            }
             _ => {}
         }
         t.acceptable_times = vec![gt];
@@ -383,6 +413,11 @@ fn make(p: &Pki, tok: Tok, message: &[u8], other_version_message: &[u8]) -> Resu
         TstInfoFlip => {
             change_gentime_digit(&mut resp)?;
             change_gentime_digit(&mut token)?;
+            t.cms_ok = false;
+        }
+        RandFlip { region, r, .. } => {
+            rand_flip(&mut resp, region, r)?;
+            rand_flip(&mut token, region, r)?;
             t.cms_ok = false;
         }
         TsaNoEku => t.tsa_eku_ok = false,
@@ -726,8 +761,21 @@ fn main() {
     }
     let debug = std::env::var("C36_DEBUG").is_ok();
     let p = Arc::new(build_pki());
+    if std::env::var("C36_PROBE").is_ok() {
+        let msg = b"hello world message".to_vec();
+        for bit in 0..8u32 {
+            let made = make(&p, Tok::RandFlip { region: 2, r: bit << 16, cli: false }, &msg, &msg).unwrap();
+            let mut log = c2pa::status_tracker::StatusTracker::default();
+            let ctp = c2pa::crypto::cose::CertificateTrustPolicy::passthrough();
+            let r = c2pa::crypto::time_stamp::verify_time_stamp(&made.resp, &msg, &ctp, &mut log, false);
+            println!("bit {bit}: {:?} log={:?}", r.map(|_| ()), log.logged_items().iter().map(|i| (i.validation_status.clone(), i.description.clone())).collect::<Vec<_>>());
+        }
+        return;
+    }
     let asset = assets::tiny_assets().into_iter().find(|a| a.format == "png").expect("tiny png");
     let jpg = assets::tiny_assets().into_iter().find(|a| a.format == "jpg" || a.format == "jpeg");
+    let all_assets = assets::tiny_assets();
+    let thorough = !run.quick();
 
     // ---- case list -----------------------------------------------------------------------------
     let mut cases: Vec<Case> = Vec::new();
@@ -747,13 +795,37 @@ fn main() {
     for cert in [CertClass::ExpiredValidAtPast, CertClass::NotYetAtPast] {
         cases.push(Case { tok: Tok::Right(Md::Sha256), cert, v: 2, path: Path::SdkSign });
     }
+    // seeded-random single-bit corruptions of right tokens (own encoder and openssl ts), both versions
+    let mut rng = vmon::Rng::new(run.seed, "c36-flips");
+    let n_flips = run.tier.pick(24usize, 600usize);
+    for i in 0..n_flips {
+        let tok = Tok::RandFlip { region: (i % 3) as u8, r: rng.next_u64() as u32, cli: i % 2 == 1 };
+        let cert = if i % 4 == 3 { CertClass::ExpiredValidAtPast } else { CertClass::Valid };
+        cases.push(Case { tok, cert, v: 1 + ((i / 3) % 2) as u8, path: Path::Direct });
+    }
+    if let Ok(sw) = std::env::var("C36_SWEEP") {
+        // debugging aid: every single-bit flip of one region (own encoder, v1)
+        let region: u8 = sw.parse().unwrap_or(2);
+        cases.clear();
+        for byte in 0..48u32 {
+            for bit in 0..8u32 {
+                cases.push(Case { tok: Tok::RandFlip { region, r: byte | (bit << 16), cli: false }, cert: CertClass::Valid, v: 1, path: Path::Direct });
+            }
+        }
+    }
     run.set("cases", json!(cases.len()));
 
     let results = par::par_map(cases.len(), |i| {
         let c = &cases[i];
         // CLI cross-check once per (token class, version) on the direct path with the valid certificate
         let check = c.path == Path::Direct && c.cert == CertClass::Valid;
-        let a = if i % 5 == 4 { jpg.as_ref().unwrap_or(&asset) } else { &asset };
+        let a = if thorough {
+            &all_assets[i % all_assets.len()]
+        } else if i % 5 == 4 {
+            jpg.as_ref().unwrap_or(&asset)
+        } else {
+            &asset
+        };
         run_case(&p, c, a, check)
     });
 
@@ -849,7 +921,7 @@ fn main() {
                 cls_codes.join(",")
             );
             let witness = json!({
-                "token_class": tokname, "cert_class": c.cert.name(), "claim_version": c.v, "delivery": path, "read_mode": r.mode,
+                "token_class": tokname, "token_case": format!("{:?}", c.tok), "cert_class": c.cert.name(), "claim_version": c.v, "delivery": path, "read_mode": r.mode,
                 "generator_truth": {"imprint_matches": t.imprint_ok, "cms_verifies": t.cms_ok, "tsa_cert_valid_at_gentime": t.tsa_valid_at_gen,
                                     "tsa_has_timestamping_eku": t.tsa_eku_ok, "tsa_chains_to_anchor": t.tsa_trusted, "gen_time": t.gen_time, "unjudged": t.unjudged},
                 "signing_cert_window": [o.ee_window.0, o.ee_window.1], "read_at": o.read_at,
@@ -859,7 +931,7 @@ fn main() {
                 "replay": "embed token_der_b64 under the header in the unprotected bucket of a COSE_Sign1 made with signing_cert_pem's key; imprint message per module doc",
             });
             if debug {
-                println!("{:45} {:28} v{} {:8} {:16} {:8} time={:?} ts={:?} fail={:?}", tokname, c.cert.name(), c.v, path, r.mode, r.state, r.time, ts_codes, failures);
+                println!("{:45} {:?} {:28} v{} {:8} {:16} {:8} time={:?} ts={:?} fail={:?}", tokname, c.tok, c.cert.name(), c.v, path, r.mode, r.state, r.time, ts_codes, failures);
             }
             if r.state == "Panic" {
                 run.violation(&format!("{}|any|v{}|panic-while-validating", c.tok.cause(), c.v), "SDK panicked while validating a time-stamped manifest", witness);
@@ -876,25 +948,28 @@ fn main() {
                     run.count(&format!("unjudged:{}:{}:v{}:time-{}", c.tok.cause(), r.mode, c.v, if time.is_some() { "reported" } else { "none" }), 1);
                 }
                 Some(false) => {
+                    // `timeStamp.validated` speaks about imprint + CMS only (C2PA: a token may be validated and
+                    // untrusted at once); `timeStamp.trusted` about the TSA credential.  One violation per read,
+                    // the strongest symptom first, so that one defect maps to one signature.
+                    let trusted = ts_codes.iter().any(|c| c.0 == "success" && c.1 == "timeStamp.trusted");
+                    let reported_valid = if base_ok { trusted } else { validated || trusted };
                     if let Some(x) = time {
                         let what = if t.acceptable_times.contains(&x) { "the token's genTime" } else { "a time" };
                         run.violation(
-                            &format!("{}|any|{sigv}|{}|signing-time-reported-from-unusable-token", c.tok.cause(), r.mode),
-                            &format!("token of class {tokname} must not be used, but signature_info.time reports {what}"),
+                            &format!("{}|any|{sigv}|signing-time-reported-from-unusable-token", c.tok.cause()),
+                            &format!("token of class {tokname} must not be used ({}), but signature_info.time reports {what}", r.mode),
                             witness.clone(),
                         );
-                    }
-                    if validated {
+                    } else if reported_valid {
                         run.violation(
-                            &format!("{}|any|{sigv}|{}|unusable-token-validated", c.tok.cause(), r.mode),
-                            &format!("token of class {tokname} must not be used, but timeStamp.validated was reported"),
+                            &format!("{}|any|{sigv}|unusable-token-reported-valid", c.tok.cause()),
+                            &format!("token of class {tokname} must not be used ({}), but a timeStamp success code says it was: {ts_codes:?}", r.mode),
                             witness.clone(),
                         );
-                    }
-                    if ts_nonsuccess.is_empty() && r.state != "Err" {
+                    } else if ts_nonsuccess.is_empty() && r.state != "Err" {
                         run.violation(
-                            &format!("{}|any|{sigv}|{}|no-timestamp-failure-code", c.tok.cause(), r.mode),
-                            &format!("token of class {tokname} is unusable but no timeStamp.* informational/failure code was reported"),
+                            &format!("{}|any|{sigv}|no-timestamp-failure-code", c.tok.cause()),
+                            &format!("token of class {tokname} is unusable ({}) but no timeStamp.* informational/failure code was reported", r.mode),
                             witness.clone(),
                         );
                     }
@@ -903,7 +978,7 @@ fn main() {
                     let time_ok = time.map(|x| t.acceptable_times.contains(&x)).unwrap_or(false);
                     if !(time_ok && validated) {
                         run.violation(
-                            &format!("{}|any|{sigv}|{}|right-token-rejected", c.tok.cause(), r.mode),
+                            &format!("{}|any|{sigv}|right-token-rejected", c.tok.cause()),
                             &format!("matching, valid token ({tokname}) not used: time={:?}, validated={validated}, codes={ts_nonsuccess:?}", r.time),
                             witness.clone(),
                         );
@@ -943,6 +1018,6 @@ fn main() {
         }
     }
     run.set("generator_vs_openssl_disagreements", json!(cli_disagree));
-    let min = if run.quick() { 120 } else { 120 };
+    let min = if run.quick() { 300 } else { 600 };
     run.finish(min);
 }
